@@ -8,7 +8,7 @@
 (*   fs[p]    content of the output path p: "absent" | a version number    *)
 (*   tmp      temp files: name -> [dir, content: "empty"|"partial"|version, moded] *)
 (*   want[p]  the content this run wants at p (a version number)           *)
-(*   phase[p] "todo" | "compared" | "skip" | "temp" | "done"               *)
+(*   phase[p] "todo" | "compared" | "skip" | "temp" | "done" | "failed"    *)
 (* A version ("v1", "v2", ...) stands for the complete text of a translation. *)
 (***************************************************************************)
 EXTENDS Integers, Sequences, FiniteSets, TLC
@@ -40,6 +40,11 @@ Rename(p) == /\ alive /\ phase[p] = "temp" /\ tmp[cur[p]].moded
              /\ tmp' = [t \in DOMAIN tmp \ {cur[p]} |-> tmp[t]]
              /\ phase' = [phase EXCEPT ![p] = "done"]
              /\ UNCHANGED <<want, cur, alive, old>>
+\* an I/O error while writing: the temp file is removed again (NamedTempFile drop), the output path is not touched
+Abandon(p) == /\ alive /\ phase[p] = "temp"
+              /\ tmp' = [t \in DOMAIN tmp \ {cur[p]} |-> tmp[t]]
+              /\ phase' = [phase EXCEPT ![p] = "failed"] /\ cur' = [cur EXCEPT ![p] = "none"]
+              /\ UNCHANGED <<fs, want, alive, old>>
 Crash == alive /\ alive' = FALSE /\ UNCHANGED <<fs, tmp, want, phase, cur, old>>
 \* ---- properties ------------------------------------------------------------------------------------
 \* at every moment -- in particular after a crash -- each output path holds its complete old or its complete new content
